@@ -357,7 +357,7 @@ def float_recipes(ctx):
             # two angles a few ten-thousandths of a degree apart (119.9997 next to 120)
             k1, k2 = rng.sample(range(3), 2)
             angles[k2] = angles[k1] + rng.choice([-1, 1]) * rng.choice([3e-6, 2e-4, 6e-4, 1e-3])
-        route = rng.choice(["params_deg", "params_rad", "triclinic_deg", "vectors", "vectors_rot", "respec_params"])
+        route = rng.choice(["params_deg", "params_rad", "triclinic_deg", "vectors", "vectors_rot", "respec_params", "vectors_upper", "vectors_upper"])
         out.append({"kind": "F", "lengths": lengths, "angles_deg": angles, "route": route, "pts": rand_points(rng),
                     "rot": [rng.gauss(0, 1) for _ in range(4)], "source": "decimal-parameters"})
     return out
@@ -388,7 +388,15 @@ def drive_float(recipe):
                        [2 * (x * y + z * w), 1 - 2 * (x * x + z * z), 2 * (y * z - x * w)],
                        [2 * (x * z - y * w), 2 * (y * z + x * w), 1 - 2 * (x * x + y * y)]])
         D0 = D0 @ Rm.T
-    if route in ("vectors", "vectors_rot"):
+    if route == "vectors_upper":
+        # the same lattice in the "c along z" orientation: a = (ax, ay, az), b = (0, by, bz), c = (0, 0, cz) - the standard embedding
+        # of the axes taken in the order c, b, a with rows and coordinates reversed (a proper rotation of the standard one)
+        cc, cb2, ca2 = math.cos(rad[0]), math.cos(rad[1]), math.cos(rad[2])          # alpha = (b,c), beta = (a,c), gamma = (a,b)
+        sal = math.sin(rad[0])
+        # order c, b, a: first axis c along x; second axis b in the xy plane (angle alpha to c); third axis a
+        Dp = np.array([[c, 0.0, 0.0], [b * cc, b * sal, 0.0], [a * cb2, a * (ca2 - cb2 * cc) / sal, vol / (c * b * sal)]])
+        D0 = Dp[::-1, ::-1].copy()
+    if route in ("vectors", "vectors_rot", "vectors_upper"):
         G0 = D0 @ D0.T
         ge = [[float(G0[0, 0]), float(G0[0, 1]), float(G0[0, 2])], [0.0, float(G0[1, 1]), float(G0[1, 2])], [0.0, 0.0, float(G0[2, 2])]]
     cI = int(min(99999, math.ceil((a * b * c / vol) ** 2 * 1.001) + 1))
